@@ -435,7 +435,7 @@ func init() {
 	core.Register(&core.Prop{
 		ID:    "C10",
 		Level: "model_checking",
-		Rule: "(plus, reader direction, the Decoder protocol search of C14 over a set written by the reference writer - comment, a non-saved entry between the saved ones, a zero-length file: every sequence of <=5 (thorough 7) operations on ONE Decoder object, incl. counts and a further Repair straight after a successful Repair) (plus the staged exported API behind Create: EVERY sequence of <=8 (thorough 9) operations from {LoadFileData, ComputeParityData, Write, replace input a by a shorter / longer / its original content, delete / restore input b} on ONE Encoder object (on the owned in-memory filesystem through a constructor hook; <=5 (thorough 7) operations also through the exported constructor on a real directory); a Write is judged iff the latest load attempt succeeded and a compute followed it - then it must succeed and the files must be a conformant set for the contents loaded last; LoadFileData must fail iff an input is missing; sequences are not merged by model state, since the point is state hidden in the object) writer direction: full product 1-4 files x sizes {0,1,2,5,9} x volumes {1,2,3,10} with ASCII / Latin-1 / CJK / astral names, plus >16 KiB files and 98/99 volumes; every file gopar writes is parsed by the strict reference reader (header, offsets, control hash, set hash, UTF-16LE entries) and every parity byte recomputed with the reference GF(2^8). " +
+		Rule: "(plus, reader direction, the Decoder protocol search of C14 over a set written by the reference writer - comment, a non-saved entry between the saved ones, a zero-length file: every sequence of <=5 (thorough 7) operations on ONE Decoder object, incl. counts and a further Repair straight after a successful Repair) (plus the staged exported API behind Create: EVERY sequence of <=8 (thorough 9) operations from {LoadFileData, ComputeParityData, Write, replace input a by a shorter / longer / its original content, delete / restore input b} on ONE Encoder object (on the owned in-memory filesystem through a constructor hook; <=5 (thorough 7) operations also through the exported constructor on a real directory); a Write is judged iff the latest load attempt succeeded and a compute followed it - then it must succeed and the files must be a conformant set for the contents loaded last; LoadFileData must fail iff an input is missing; a second search over the error-path alphabet {load, compute, write, write with its 1st / 2nd file write torn half-way, change a} (one operation shorter) requires that an interrupted Write reports the failure and that later Writes on the same object are still right; sequences are not merged by model state, since the point is state hidden in the object) writer direction: full product 1-4 files x sizes {0,1,2,5,9} x volumes {1,2,3,10} with ASCII / Latin-1 / CJK / astral names, plus >16 KiB files and 98/99 volumes; every file gopar writes is parsed by the strict reference reader (header, offsets, control hash, set hash, UTF-16LE entries) and every parity byte recomputed with the reference GF(2^8). " +
 			"reader direction: reference-written sets with EVERY status bitmask over 1-4 (thorough 1-5) entries (>=1 saved; bit0 saved, bit1 checked) x comment {none, ASCII, binary, 1 KiB} x 3 name sets incl. surrogate pairs x EVERY subset of damaged saved files x EVERY subset of missing volumes, plus a volume with wrong parity data but valid hashes; plus sets listing 90-300 additional non-saved files (total file counts around 99, 255, 256 and above); real Verify(all data) and Repair. non-trivial = damaged set repaired / every write-direction case",
 		Assumptions: []string{"files are numbered from 1 over the saved entries in list order (PAR 1.0 spec)", "non-saved entries are ignored by verification and never written"},
 		NewCase:     func() interface{} { return &c10Case{} },
